@@ -130,14 +130,15 @@ ThreeRoutes == Done =>
               LET sym == Eval(D(tr, <<"sp", j>>), env)
                   jet == Jet(tr, env, <<"sp", j>>, 1) IN
               /\ (sym.st = "ok" /\ jet[2].st = "ok") => sym = jet[2]
-              /\ IsLaw(rx) => sym = QV(LawDx(LawOf(rx, env), env.x, j))
+              \* (a value the 32-bit-safe arithmetic cannot represent has status # "ok" and is not compared)
+              /\ (IsLaw(rx) /\ sym.st = "ok") => sym = QV(LawDx(LawOf(rx, env), env.x, j))
         /\ \A q \in 1..NP :
               LET sym == Eval(D(tr, <<"par", q>>), env)
                   jet == Jet(tr, env, <<"par", q>>, 1) IN
               /\ (sym.st = "ok" /\ jet[2].st = "ok") => sym = jet[2]
-              /\ (IsLaw(rx) /\ q = rx.ki) => sym = OkV(LawDp(LawOf(rx, env), env.x, "k"))
-              /\ (IsLaw(rx) /\ q = rx.Ki) => sym = OkV(LawDp(LawOf(rx, env), env.x, "K"))
-              /\ (IsLaw(rx) /\ q = rx.ni) => sym = OkV(LawDp(LawOf(rx, env), env.x, "n"))
+              /\ (IsLaw(rx) /\ q = rx.ki /\ sym.st = "ok") => sym = OkV(LawDp(LawOf(rx, env), env.x, "k"))
+              /\ (IsLaw(rx) /\ q = rx.Ki /\ sym.st = "ok") => sym = OkV(LawDp(LawOf(rx, env), env.x, "K"))
+              /\ (IsLaw(rx) /\ q = rx.ni /\ sym.st = "ok") => sym = OkV(LawDp(LawOf(rx, env), env.x, "n"))
               /\ (q \notin {rx.ki, rx.Ki, rx.ni} /\ ~Mentions(tr, <<"par", q>>)) => sym = ZeroV
 \* for polynomial right-hand sides (mass action only) every scheme, applied literally with h = 1/10 at the
 \* emitted state, returns exactly the finite Taylor sum, and its error is the next term(s)
